@@ -488,10 +488,11 @@ class Translator:
             if entry and a[0].kind == 'int':
                 n = len(decls)
                 decls.append('_Alignas(%d) unsigned char a%d[%d];' % (al, n, max(a[0].v, 1)))
-                return setr('(L)(uintptr_t)a%d' % n)
+                # fresh stack slots hold a recognisable pattern: a byte the emitted code reads without having written it shows
+                return '{ memset(a%d, 0xAA, sizeof a%d); %s }' % (n, n, setr('(L)(uintptr_t)a%d' % n))
             # __builtin_alloca_with_align has block lifetime (it implements VLAs); QBE's
             # dynamic alloc lives until the function returns, like __builtin_alloca.
-            return setr('((L)(uintptr_t)__builtin_alloca((size_t)%s + %d) + %d) & ~(L)%d' % (A(0, 'l'), al, al - 1, al - 1))
+            return '{ size_t n_ = (size_t)%s + %d; void *m_ = memset(__builtin_alloca(n_), 0xAA, n_); %s }' % (A(0, 'l'), al, setr('((L)(uintptr_t)m_ + %d) & ~(L)%d' % (al - 1, al - 1)))
         if op == 'vastart':
             if not f.variadic:
                 return 'il_trap("vastart in non-variadic function");'
